@@ -14,13 +14,14 @@ EXTENDS Naturals, Integers, Sequences, FiniteSets, TLC
 
 CONSTANTS Callers,        \* set of caller ids
           Unit,           \* caller -> Seq([dt : BOOLEAN, twice : BOOLEAN, query : BOOLEAN])
-          Mode,           \* caller -> "send" | "sequence"
+          Mode,           \* caller -> "send" | "sequence" | "power" (power_supply() requests: one write each, no report awaited)
           ExcOn,          \* caller -> BOOLEAN (exceptions on send; sequences always raise)
           Cancellable,    \* callers the environment may cancel
           MaxLoss,        \* how often the device may vanish
           MaxSeq,         \* sequence numbers 1..MaxSeq (255 in the code; small here so that wrap-around is reached)
           FixedCancel,    \* TRUE: a cancelled send frees its sequence number (commit 16e80ac); FALSE: the old code
-          Limit           \* reconnect limit, -1 = none
+          Limit,          \* reconnect limit, -1 = none
+          PowerLocked     \* TRUE: power_supply() takes the transaction lock (the code); FALSE: it does not (seeded C15f)
 
 VARIABLES pc,         \* caller -> "idle"|"lockwait"|"haslock"|"connwait"|"mailwait"|"cancelling"|"done"
           idx,        \* caller -> index of the command being sent
@@ -75,7 +76,9 @@ FirstFrame(c) == IF Unit[c][idx[c]].dt THEN "edt" ELSE "cmd"
 \* ---- caller steps ---------------------------------------------------------------------------
 Start(c) ==
     /\ pc[c] = "idle"
-    /\ Acquire(c, "haslock")
+    /\ IF Mode[c] = "power" /\ ~PowerLocked
+       THEN /\ pc' = [pc EXCEPT ![c] = "haslock"] /\ UNCHANGED <<lockHeld, lockOwner, waiters, woken, cancelledW>>
+       ELSE Acquire(c, "haslock")
     /\ sub' = [sub EXCEPT ![c] = FirstFrame(c)]
     /\ UNCHANGED <<idx, seq, need, resp, results, exc, wire, outstanding, mail, nextSeq, gw, present, fdok, connected, hs, losses,
                    attempts, failed, assertFailed>>
@@ -114,6 +117,17 @@ SendStep(c) ==
        THEN /\ pc' = [pc EXCEPT ![c] = "connwait"]
             /\ UNCHANGED <<idx, sub, seq, need, resp, results, exc, lockHeld, lockOwner, waiters, woken, cancelledW, wire, outstanding,
                            mail, nextSeq, gw, present, fdok, connected, hs, losses, attempts, failed, assertFailed>>
+       ELSE IF Mode[c] = "power"
+       THEN \* _power_supply(): one packet, no sequence number, nothing awaited; power_supply() then releases the lock
+            LET last == idx[c] = Len(Unit[c]) IN
+            /\ fdok
+            /\ wire' = Append(wire, <<c, idx[c], "cmd">>)
+            /\ results' = [results EXCEPT ![c] = Append(@, None)]
+            /\ idx' = [idx EXCEPT ![c] = IF last THEN @ ELSE @ + 1]
+            /\ pc' = [pc EXCEPT ![c] = IF last THEN "done" ELSE "idle"]
+            /\ IF PowerLocked THEN ReleaseVars ELSE UNCHANGED <<lockHeld, lockOwner, waiters, woken, cancelledW>>
+            /\ UNCHANGED <<sub, seq, need, resp, exc, outstanding, mail, nextSeq, gw, present, fdok, connected, hs, losses, attempts,
+                           failed, assertFailed>>
        ELSE LET s == nextSeq
                 twice == sub[c] = "cmd" /\ Cmd(c).twice
             IN /\ nextSeq' = IF s = MaxSeq THEN 1 ELSE s + 1
